@@ -117,37 +117,111 @@ def classify_type_test(test, param):
     return None
 
 
+def _type_truth(test, item, assume):
+    """truth of a test under the assumption that `item` is of kind `assume` ('int' | 'str' | 'slice'); None = unknown"""
+    t = test
+    if isinstance(t, ast.UnaryOp) and isinstance(t.op, ast.Not):
+        r = _type_truth(t.operand, item, assume)
+        return None if r is None else (not r)
+    if isinstance(t, ast.BoolOp):
+        rs = [_type_truth(v, item, assume) for v in t.values]
+        if isinstance(t.op, ast.And):
+            if any(r is False for r in rs):
+                return False
+            return True if all(r is True for r in rs) else None
+        if any(r is True for r in rs):
+            return True
+        return False if all(r is False for r in rs) else None
+    tags = classify_type_test(t, item) if isinstance(t, ast.Call) else None
+    if tags is None:
+        return None
+    if assume in tags:
+        return True
+    if all(x in ('str', 'int', 'slice') or x.startswith('other:') for x in tags):
+        return False
+    return None
+
+
+def specialise(stmts, item, assume):
+    """the statements of `stmts` that run when `item` is of kind `assume`: isinstance tests on `item` are decided,
+    undecidable `if`s are kept whole. Original nodes are reused (identity preserved). Stops pruning once `item` is
+    rebound. Returns (statements, dead_end) where dead_end is True if a failing `assert isinstance(...)` ends the path."""
+    out, dead, _rebound = _specialise(stmts, item, assume)
+    return out, dead
+
+
+def _specialise(stmts, item, assume):
+    out = []
+    for i, st in enumerate(stmts):
+        if isinstance(st, ast.If):
+            tr = _type_truth(st.test, item, assume)
+            if tr is not None:
+                arm = st.body if tr else st.orelse
+                sub, dead, rebound = _specialise(arm, item, assume)
+                out.extend(sub)
+                if dead or (arm and _always_exits(arm)):
+                    return out, dead, rebound
+                if rebound:
+                    out.extend(stmts[i + 1:])
+                    return out, False, True
+                continue
+            out.append(st)
+            if any(isinstance(x, ast.Assign) and any(A.is_name(t, item) for t in x.targets) for x in A.walk_stmts([st])):
+                out.extend(stmts[i + 1:])
+                return out, False, True
+            continue
+        if isinstance(st, ast.Assert):
+            tr = _type_truth(st.test, item, assume)
+            if tr is False:
+                out.append(st)
+                return out, True, False
+        out.append(st)
+        if isinstance(st, ast.Assign) and any(A.is_name(t, item) for t in st.targets):
+            # the index is rebound (e.g. translated into a key): nothing is known about its kind afterwards
+            out.extend(stmts[i + 1:])
+            return out, False, True
+        if isinstance(st, (ast.Return, ast.Raise)):
+            return out, False, False
+    return out, False, False
+
+
+def _always_exits(stmts):
+    from .. import flow
+    return flow.always_exits(stmts)
+
+
+def _has_type_test(fn, item):
+    for n in A.walk_local(fn):
+        if isinstance(n, ast.Call) and classify_type_test(n, item) is not None:
+            return True
+    return False
+
+
 def getitem_arms(fn):
-    """Split a __getitem__ body into arms by isinstance tests on the index parameter.
-    Returns list of dicts {types:set, body:[stmts], test:expr|None} in order; an arm with
-    types None is an unconditional tail / else."""
+    """Arms of a __getitem__ by the kind of index: for 'int' and for 'str' the statements that run for such an index
+    (computed by deciding the isinstance tests, so if/elif chains, guard clauses and early returns are all understood).
+    Returns (index parameter name, [ {types, body, node, test, dead_end} ... ]); empty list when the function does
+    not dispatch on the index type at all."""
     params = [a.arg for a in fn.args.posonlyargs + fn.args.args]
     if len(params) < 2:
         raise AnalysisError('__getitem__ without index parameter at line %s' % fn.lineno)
     item = params[1]
+    if not _has_type_test(fn, item):
+        return item, []
+    body = [s for s in fn.body if not (isinstance(s, ast.Expr) and isinstance(s.value, ast.Constant))]
     arms = []
-
-    def walk(stmts):
-        for i, st in enumerate(stmts):
-            if isinstance(st, ast.If):
-                ty = classify_type_test(st.test, item)
-                if ty is not None:
-                    arms.append({'types': ty, 'body': st.body, 'test': st.test, 'node': st})
-                    if st.orelse:
-                        if len(st.orelse) == 1 and isinstance(st.orelse[0], ast.If):
-                            walk(st.orelse)
-                        else:
-                            arms.append({'types': None, 'body': st.orelse, 'test': None, 'node': st})
-                    continue
-            if isinstance(st, ast.Assert):
-                ty = classify_type_test(st.test, item)
-                if ty is not None:
-                    arms.append({'types': ty, 'body': stmts[i + 1:], 'test': st.test, 'node': st,
-                                 'assert': True})
-                    return
-        return
-
-    walk(fn.body)
+    first_line = {}
+    for n in A.walk_local(fn):
+        if isinstance(n, ast.Call):
+            tags = classify_type_test(n, item)
+            if tags:
+                for t in tags:
+                    first_line.setdefault(t, n.lineno)
+    for kind in ('str', 'int'):
+        stmts, dead = specialise(body, item, kind)
+        node = type('ArmAnchor', (), {'lineno': first_line.get(kind, fn.lineno)})()
+        arms.append({'types': {kind}, 'body': stmts, 'node': node, 'test': None, 'dead_end': dead, 'fn': fn})
+    arms.sort(key=lambda a_: a_['node'].lineno)
     return item, arms
 
 
